@@ -364,6 +364,27 @@ Proof.
   destruct (csgn d) as [g1 g2], b as [b1 b2]. unfold cadd, cscale; cbn. f_equal; ring.
 Qed.
 
+
+(* explicit branches of the complex soft-threshold (used by the per-case `interval` lemmas of the harness) *)
+Lemma cl1_prox_shrink n w b sigma x :
+  0 < cabs (csub x b) - cabs (cscale (sigma / n) w) ->
+  cl1_prox n w b sigma x =
+    ((cabs (csub x b) - cabs (cscale (sigma / n) w)) * (fst (csub x b) / cabs (csub x b)) + fst b,
+     (cabs (csub x b) - cabs (cscale (sigma / n) w)) * (snd (csub x b) / cabs (csub x b)) + snd b).
+Proof.
+  intros H. unfold cl1_prox, csoft, csgn.
+  pose proof (cabs_nonneg (cscale (sigma / n) w)) as Ht.
+  destruct (Req_EM_T (cabs (csub x b)) 0) as [E|E]; [lra|].
+  unfold reluR. rewrite Rmax_left by lra. unfold cadd, cscale at 1; cbn [fst snd]. reflexivity.
+Qed.
+
+Lemma cl1_prox_kill n w b sigma x :
+  cabs (csub x b) - cabs (cscale (sigma / n) w) <= 0 -> cl1_prox n w b sigma x = b.
+Proof.
+  intros H. unfold cl1_prox, csoft, reluR. rewrite Rmax_right by lra.
+  destruct (csgn (csub x b)) as [g1 g2], b as [b1 b2]. unfold cadd, cscale; cbn [fst snd]. f_equal; ring.
+Qed.
+
 (* ---- L2 complex ---- *)
 Lemma cl2_val_alt w b x : cl2_val w b x = cnorm2 w * cnorm2 (csub x b).
 Proof. unfold cl2_val, sq. rewrite cabs_mul. rewrite <- !cabs_sq. ring. Qed.
